@@ -360,8 +360,9 @@ class ASTRewriter(ast.NodeTransformer):
             ),
         ]
 
-    def __unroll_arg(self, arg):
-        """Transform a node to a list (when is a Tuple or a subscribable type)"""
+    def __unroll_arg(self, arg, strict=False):
+        """Transform a node to a list (when is a Tuple or a subscribable type); with strict,
+        a node whose elements are not known is refused instead of taken as its only element"""
         if isinstance(arg, ast.Tuple):
             # If it's a tuple, return elts
             return arg.elts
@@ -410,6 +411,8 @@ class ASTRewriter(ast.NodeTransformer):
                 self.env.get_type(arg.id), ast.Tuple
             ):
                 return self.env.get_constant(arg.id).elts
+        if strict:
+            raise Exception(f"Not an iterable of known length: {ast.dump(arg)}")
         return [arg]
 
     def visit_For(self, node):
@@ -453,12 +456,12 @@ class ASTRewriter(ast.NodeTransformer):
         if len(node.args) != 1:
             raise Exception("Len only receives one argument")
 
-        args = self.__unroll_arg(node.args[0])
+        args = self.__unroll_arg(node.args[0], strict=True)
         return ast.Constant(value=len(args))
 
     def __call_minmax(self, node):
         if len(node.args) == 1:
-            args = self.__unroll_arg(node.args[0])
+            args = self.__unroll_arg(node.args[0], strict=True)
         else:
             args = node.args
 
@@ -481,7 +484,7 @@ class ASTRewriter(ast.NodeTransformer):
         if len(node.args) != 1:
             raise Exception(f"sum() takes at most 1 argument ({len(node.args)} given)")
 
-        args = self.__unroll_arg(node.args[0])
+        args = self.__unroll_arg(node.args[0], strict=True)
 
         def iterif(arg_l):
             if len(arg_l) == 1:
@@ -495,7 +498,7 @@ class ASTRewriter(ast.NodeTransformer):
         if len(node.args) != 1:
             raise Exception(f"any() takes exactly 1 argument ({len(node.args)} given)")
 
-        args = self.__unroll_arg(node.args[0])
+        args = self.__unroll_arg(node.args[0], strict=True)
         op = ast.Or() if node.func.id == "any" else ast.And()
         return ast.BoolOp(op=op, values=args)
 
